@@ -73,6 +73,9 @@ def gen_case(rng, supervised, lda_tail=False):
   max_iter = int(rng.choice([12, 24, 40]))
   output_iter = int(rng.choice([1, 4, 6, 12]))
   bsz = int(rng.integers(1, 5))
+  few_triplets = (not supervised) and rng.random() < 0.25
+  if few_triplets:
+    bsz = int(rng.integers(6, 11))                   # (10 is the documented default)
   beta = float(rng.choice([1e-5, 1e-3, 1e-2]))
   # (weights scale like 1 / gamma: a huge gamma gives strictly positive weights of order 1e-10 - still ACTIVE bases)
   gamma = float(rng.choice([5e-3, 5e-2, 0.5, 0.5, 2.0 ** 33]))
@@ -97,7 +100,10 @@ def gen_case(rng, supervised, lda_tail=False):
         if supervised:
           est = gen.SCML_Supervised(k_genuine=2, k_impostor=3, **kw).fit(X, y)
         else:
-          idx = gen.triplets_from(rng, X, y, int(rng.integers(max(d, 8), 20)))
+          ntrip = int(rng.integers(max(d, 8), 20))
+          if few_triplets:
+            ntrip = int(rng.integers(d, 6))          # fewer triplets than the mini-batch holds (sampling is with replacement)
+          idx = gen.triplets_from(rng, X, y, ntrip)
           est = gen.SCML(**kw).fit(X[idx])
       ev['lowrank_warning'] = any('reduces the dimension' in str(x.message) for x in wrn)
       ev['L'] = dym(est.components_)
